@@ -659,8 +659,10 @@ func (st *StateDB) Copy() *StateDB {
 	for addr := range st.stateObjectsDirty {
 		if _, exist := state.stateObjects[addr]; !exist {
 			state.stateObjects[addr] = st.stateObjects[addr].deepCopy(state)
-			state.stateObjectsDirty[addr] = struct{}{}
 		}
+		// also when the pending loop above has already copied the object: Commit writes
+		// code, delegations and storage only for objects that are marked dirty
+		state.stateObjectsDirty[addr] = struct{}{}
 	}
 
 	for hash, logs := range st.logs {
